@@ -335,6 +335,14 @@ impl Prop for C15 {
                 tie_seed: seed, extra_capacity: 0, bits: None,
             });
         }
+        // one symbol with just over 2^20 (2^21) occurrences among 200 others
+        for (kind, lg, n, seed) in [(TreeKind::Hwt, 20u8, 1_350_000usize, 11u64), (TreeKind::Hqwt256, 20, 1_350_000, 12), (TreeKind::Hwt, 21, 2_400_000, 13)] {
+            v.push(SpaceCase {
+                kind: SpKind::Tree(kind, ElemTy::U8), path: 0,
+                recipe: Recipe { n, alphabet: (0..201).collect(), profile: Profile::DominantAt(lg, 100), arr: Arr::Shuffled, seed },
+                tie_seed: seed, extra_capacity: 0, bits: None,
+            });
+        }
         if tier == Tier::Thorough {
             v.push(mk(TreeKind::Hwt, ElemTy::U8, 9_227_464, 2, Arr::Shuffled, 6));
             v.push(mk(TreeKind::Hwt, ElemTy::U8, 8_400_000, 2, Arr::Padded(true, 7), 7));
